@@ -78,7 +78,9 @@ def run(ctx, b, broken):
         try:
             os.chdir(tmp)
             for h in [x for x in headers if x in ("stdio.h", "stdlib.h", "string.h", "stdint.h", "assert.h", "sys/types.h")] + headers[:4]:
-                rel = "t_" + h.replace("/", "_") + ".c"
+                rel = "r_" + h.replace("/", "_") + ".c"
+                with open(os.path.join(tmp, rel), "w") as f_:
+                    f_.write(f"#include <{h}>\nint own_object = 1;\nint own_function(int own_parameter);\n")     # nodes located in the file itself
                 for relname in (rel, "./" + rel):
                     ctx.evaluations += 1
                     ctx.count("form:relative-path")
